@@ -30,6 +30,10 @@ class StopInterleaver:
                 time.sleep(0.05)
         elif name == "stop_cancelled":
             self.user_cancelled.set()
+        elif name == "submitted" and ctx.get("fn") == "_stopping" and m in ("user_after_stop_submit", "random"):
+            # the user thread is descheduled right after it has queued a wrapper's stopping task
+            self.hits.append(name)
+            time.sleep(0.02)
         elif name == "sync_before_publish" and m == "sup_before_publish":
             self.hits.append(name)
             self.user_cancelled.wait(timeout=2.0)
